@@ -415,7 +415,12 @@ def finish(pid, tier, seed, code, t0, L):
         'wall_s': round(time.time() - t0, 2),
         'violations': len(L.get('violations', [])),
     }
-    p = os.path.join(HERE, 'evidence', '%s.json' % pid)
+    if os.path.realpath(REPO) == '/repo':
+        p = os.path.join(HERE, 'evidence', '%s.json' % pid)
+    else:
+        # scratch trees (mutation tests) never overwrite the evidence of the real tree
+        os.makedirs(os.path.join(HERE, 'out', 'evidence_scratch'), exist_ok=True)
+        p = os.path.join(HERE, 'out', 'evidence_scratch', '%s.json' % pid)
     json.dump(ev, open(p, 'w'), indent=1, default=str)
     print('%s tier=%s obligations=%d discharged=%d known=%d undecided=%d violations=%d exit=%d wall=%.1fs'
           % (pid, tier, cov['obligations'], cov['discharged'], known_obls, len(cov['undecided']),
